@@ -18,26 +18,35 @@ def _regen_filedefs(ctx):
 
 
 def _regen_listenerfacts(ctx):
-    """does buffer size 0 deadlock on this tree? → Generated/ListenerFacts.lean (read by the driver only)"""
+    """obsolete since the repair of KF-C14-1 (the model follows the code for buffer size 0; nothing is probed any more).
+    The step name is kept because checklib/props/C15.py still lists it; it only removes the file older runs generated."""
     import framework as F
     out = os.path.join(F.LEAN, 'FitModel', 'Generated', 'ListenerFacts.lean')
-    try:
-        ans = F.run_harness_exec(['listenerprobe ' + out], timeout=300)[0]
-    except Exception as e:  # noqa
-        ans = f'error {e!r}'
-    if not ans.startswith('ok '):
-        ctx.fail('tool', 'listener probe failed (' + ans[:300] + ')')
-        return False
-    ctx.cov.setdefault('extra', {})['listener_probe'] = ans
+    if os.path.exists(out):
+        os.remove(out)   # the registries are regenerated from what is on disk before every lake build
     return True
 
 
 REGEN = {'filedefs': _regen_filedefs, 'listenerfacts': _regen_listenerfacts}
 
 
+def _detector_selftest(ctx):
+    """the deadlock detector of the listener family must still recognise a deadlock (a listener that certainly blocks
+    forever: the zero Listener, whose pool channel is nil) — otherwise "no deadlock observed" would mean nothing"""
+    import framework as F
+    try:
+        ans = F.run_harness_exec(['listenerselftest'], timeout=300)[0]
+    except Exception as e:  # noqa
+        ans = f'error {e!r}'
+    ctx.cov.setdefault('extra', {})['listener_deadlock_detector'] = ans
+    if not ans.startswith('ok '):
+        ctx.fail('tool', 'deadlock detector self-test of the listener family failed (' + ans[:300] + ')')
+
+
 def _extra(ctx, spec):
     from . import _crash
     _crash.report_crashes(ctx)
+    _detector_selftest(ctx)
     _race_extra(ctx, spec)
 
 
@@ -68,18 +77,19 @@ def _race_extra(ctx, spec):
 
 PROP = dict(
     level='proof',
-    regen=['filedefs', 'listenerfacts'],
+    regen=['filedefs'],
     theorems=['Fit.C14.C14_tables_ok', 'Fit.C14.C14_build_keeps_last', 'Fit.C14.C14_conservation',
               'Fit.C14.C14_conservation_no_file_id', 'Fit.C14.C14_prefix_order', 'Fit.C14.C14_sort_stable',
               'Fit.C14.C14_sort_unique', 'Fit.C14.C14_timestampless_first', 'Fit.C14.C14_sorted_stable_partial',
               'Fit.C14.C14_sorted_suffix', 'Fit.C14.C14_KF2_witness',
               'Fit.C14.C14_listener_inv', 'Fit.C14.C14_listener_deadlock_free', 'Fit.C14.C14_listener_eq_sequential',
-              'Fit.C14.C14_listener_no_carry_over', 'Fit.C14.C14_listener_run_is_path', 'Fit.C14.C14_KF1_buffer0_deadlock',
+              'Fit.C14.C14_listener_never_deadlocked', 'Fit.C14.C14_listener_no_carry_over', 'Fit.C14.C14_listener_run_is_path',
+              'Fit.C14.C14_listener_unbuffered_handover', 'Fit.C14.C14_listener_buffer0_completes',
               'Fit.C14.C14_listener_builds_file'],
     extra=_extra,
     families=[dict(name='filedef', prop=True), dict(name='listener', spec=True)],
     trusted_base=STD_TRUST + [
-        "the listener is a hand-written transition system over listener.go (channel semantics per the Go spec: buffered send/receive, close, nil channel); it is tied to the code by behaviour: results of every File(), and deadlock / termination, for buffer sizes 0..8, 64, 128, chained sequences, Reset/Close reuse, GOMAXPROCS 1/2/16, against the model run under a seeded scheduler and against the one-thread specification",
+        "the listener is a hand-written transition system over listener.go (channel semantics per the Go spec: buffered send/receive, unbuffered rendezvous, close); it is tied to the code by behaviour: results of every File(), and deadlock / termination, for buffer sizes 0..8, 64, 128, chained sequences, Reset/Close reuse, GOMAXPROCS 1/2/16, against the model run under a seeded scheduler and against the one-thread specification",
         "deadlock of the real listener is observed by a stop-the-world goroutine snapshot (calling goroutine and every listener worker blocked in channel operations), not by a timeout",
         "data-race freedom of the compiled listener is sampled by the race detector (thorough tier), not proved; proved is exclusive ownership of slices and of the file cell in the model",
         "file-type tables (slot kinds, emission order, sort start, candidate-field modes) are regenerated on every run by black-box probing of filedef.PredefinedFileSet() with tagged messages",
@@ -88,7 +98,7 @@ PROP = dict(
 )
 
 TEXT = dict(
-    technique='Lean 4 proof: multiset conservation / prefix / unique stable sort over file-type tables regenerated by black-box probing; invariant, deadlock freedom and refinement to a one-thread specification for a labelled transition system of the listener (every buffer size >= 1, every script, every interleaving); differential tie + race detector',
-    text='For all 17 file types (tables re-probed from the code on every run) and every message list: ToFIT(build) is a permutation of the input with singletons keeping their last occurrence, starts with file_id / developer_data_id / field_description, and the rest is the unique stable sort by the timestamp key for the 9 types that sort everything (the other 8 sort only unrelated messages or nothing: open finding KF-C14-2). The listener model (pool/queue/done channels, OnMesg/File/Close/Reset, worker loop) keeps every pooled slice exclusively owned, never deadlocks and returns exactly the files of the one-thread specification for every buffer size >= 1, script and interleaving; buffer size 0 deadlocks (theorem + open finding KF-C14-1).',
+    technique='Lean 4 proof: multiset conservation / prefix / unique stable sort over file-type tables regenerated by black-box probing; invariant, deadlock freedom and refinement to a one-thread specification for a labelled transition system of the listener (every buffer size >= 0, every script, every interleaving); differential tie + race detector',
+    text='For all 17 file types (tables re-probed from the code on every run) and every message list: ToFIT(build) is a permutation of the input with singletons keeping their last occurrence, starts with file_id / developer_data_id / field_description, and the rest is the unique stable sort by the timestamp key for the 9 types that sort everything (the other 8 sort only unrelated messages or nothing: open finding KF-C14-2). The listener model (pool/queue/done channels, OnMesg/File/Close/Reset, worker loop) keeps every pooled slice exclusively owned, never deadlocks and returns exactly the files of the one-thread specification for every buffer size >= 0 (0 = unbuffered message channel with a one-slice pool: synchronous hand-over), script (Reset through 0 and back included) and interleaving. The deadlock of buffer size 0 (F15) was reported by this check and is repaired in /repo (fixed entry KF-C14-1); reverting the repair makes the correspondence and the one-thread specification fail on every operation that delivers a message at size 0.',
     note='Trusted: Lean kernel; the probe that regenerates the file-type tables; the hand-written listener model and Go channel semantics; harness/driver protocol. Content of messages is an opaque digest (typed normalisation is C13). Data-race freedom of the binary is sampled (-race), not proved.',
 )
